@@ -17,7 +17,7 @@ op encoding (JSON lists):
 """
 import random
 
-from .qengine import Engine
+from .qengine import Engine, RestartFailed
 from .qmodel import Checker
 
 WORKERS = ("w1", "w2", "w3")
@@ -234,8 +234,15 @@ def execute(ops, choices=(), maxjobs=4, probes=False, want_enabled=None, drain=T
     tr = Tracker(eng, maxjobs)
     applied = []
     last = None
+    restart_failed = None
     for op in ops:
-        if not apply_op(eng, tr, op):
+        try:
+            ok = apply_op(eng, tr, op)
+        except RestartFailed as e:
+            restart_failed = e
+            applied.append(op)
+            break
+        if not ok:
             if lenient:
                 continue
             eng.close()
@@ -244,6 +251,8 @@ def execute(ops, choices=(), maxjobs=4, probes=False, want_enabled=None, drain=T
         if probes and op[0] in ("run", "restart"):
             probe_all(eng, tr)
         last = op
+    if restart_failed is not None:
+        want_enabled, drain, probes = None, False, False
     nxt = None
     if want_enabled is not None:
         nxt = enabled_ops(eng, tr, want_enabled, last)
@@ -267,6 +276,9 @@ def execute(ops, choices=(), maxjobs=4, probes=False, want_enabled=None, drain=T
     ck = Checker()
     ck.feed(eng.events)
     findings = ck.finish()
+    if restart_failed is not None:
+        findings = [("C18", "restart:%s-raises:%s" % (restart_failed.phase, type(restart_failed.exc).__name__),
+                     "stopping/starting the server failed: %s" % restart_failed)]
     out = {"ops": applied, "findings": findings, "obs": ck.obs, "events": len(eng.events), "enabled": nxt,
            "choice_sizes": list(eng.rnd.sizes), "drained": drained, "sig": sig,
            "snapshot": eng.snapshot() if findings else None}
